@@ -181,6 +181,14 @@ impl MuxStream {
                 // We have reached the congestion window limit. Wait for an `Acknowledge`
                 debug!("waiting for `Acknowledge`");
                 self.writer_waker.register(cx.waker());
+                // An `Acknowledge` or a closure may have slipped in between our check and
+                // the registration, in which case its wake-up found no waker: check again.
+                if self.finish_sent.load(Ordering::Acquire) {
+                    return Poll::Ready(None);
+                }
+                if self.psh_send_remaining.load(Ordering::Acquire) != 0 {
+                    continue;
+                }
                 // Since all writes start with `poll_flush`, we don't need to
                 // flush here. There is actually no way to `poll_flush` without
                 // magic.
